@@ -119,7 +119,8 @@ impl<'a> FciBuilder<'a> for FirBuilder {
 impl RtcpPacketWriter for FirBuilder {
     fn calculate_size(&self) -> Result<usize, RtcpWriteError> {
         let entries = self.ssrc_seq.len();
-        if entries > u16::MAX as usize / 2 - 2 {
+        // each entry takes two 32-bit words, after the three words of the feedback header
+        if entries * 2 > u16::MAX as usize - 2 {
             return Err(RtcpWriteError::TooManyFir);
         }
         Ok(entries * 2 * 4)
